@@ -23,6 +23,7 @@ fn run_c07(tier: Tier) -> i32 {
 const PROPS: &[(&str, RunFn, ReplayFn)] = &[
     ("C01", run_c01, props::c01::replay),
     ("C02", props::c02::run, props::c02::replay),
+    ("C03", props::c03::run, props::c03::replay),
     ("C04", props::c02::run_c04, props::c02::replay_c04),
     ("C05", props::c05::run, props::c05::replay),
     ("C06", props::c06::run, props::c06::replay),
